@@ -179,7 +179,14 @@ from .config import (
     get_xdg_config_home_path,
 )
 from .credentials import match_partial_url, match_urls
-from .errors import GitProtocolError, HangupException, NotGitRepository, SendPackError
+from .errors import (
+    GitProtocolError,
+    HangupException,
+    NotGitRepository,
+    RefFormatError,
+    SendPackError,
+)
+from .file import FileLocked
 from .object_format import DEFAULT_OBJECT_FORMAT
 from .object_store import GraphWalker
 from .objects import ObjectID, valid_hexsha
@@ -2136,6 +2143,13 @@ class TraditionalGitClient(GitClient):
             if CAPABILITY_DELETE_REFS not in server_capabilities:
                 # Server does not support deletions. Fail later.
                 new_refs = dict(orig_new_refs)
+                if atomic and ZERO_SHA in orig_new_refs.values():
+                    # leaving the deletions out would turn an atomic push
+                    # into a partial one
+                    proto.write_pkt_line(None)
+                    raise GitProtocolError(
+                        "atomic push: remote does not support deleting refs"
+                    )
                 for ref, sha in orig_new_refs.items():
                     if sha == ZERO_SHA:
                         if CAPABILITY_REPORT_STATUS in negotiated_capabilities:
@@ -3048,21 +3062,24 @@ class LocalGitClient(GitClient):
                 and new_sha1 not in target.object_store
             }
 
+            def current_value(refname: Ref) -> ObjectID:
+                try:
+                    return target.refs[refname]
+                except KeyError:
+                    return ZERO_SHA
+
             if atomic:
                 # Validate all ref updates first before applying any
                 for refname, new_sha1 in new_refs.items():
                     old_sha1 = old_refs.get(refname, ZERO_SHA)
                     if refname in missing:
                         ref_status[refname] = "missing necessary objects"
-                    elif new_sha1 != ZERO_SHA:
-                        current = target.refs.get_peeled(refname)
-                        if current is not None and current != old_sha1:
+                    elif current_value(refname) != old_sha1:
+                        if new_sha1 != ZERO_SHA:
                             ref_status[refname] = (
                                 f"unable to set {refname!r} to {new_sha1!r}"
                             )
-                    else:
-                        current = target.refs.get_peeled(refname)
-                        if current is not None and current != old_sha1:
+                        else:
                             ref_status[refname] = "unable to remove"
                 if ref_status:
                     # Atomic push: if any ref would fail, fail them all
@@ -3073,20 +3090,51 @@ class LocalGitClient(GitClient):
                         _to_optional_dict(new_refs), ref_status=ref_status
                     )
 
+            ref_errors = (OSError, KeyError, FileLocked, RefFormatError)
+            applied: list[tuple[Ref, ObjectID, ObjectID]] = []
             for refname, new_sha1 in new_refs.items():
                 old_sha1 = old_refs.get(refname, ZERO_SHA)
+                msg = None
                 if refname in missing:
-                    _progress(f"missing necessary objects for {refname!r}".encode())
-                    ref_status[refname] = "missing necessary objects"
+                    msg = "missing necessary objects"
                 elif new_sha1 != ZERO_SHA:
-                    if not target.refs.set_if_equals(refname, old_sha1, new_sha1):
+                    try:
+                        updated = target.refs.set_if_equals(
+                            refname, old_sha1, new_sha1
+                        )
+                    except ref_errors:
+                        updated = False
+                    if not updated:
                         msg = f"unable to set {refname!r} to {new_sha1!r}"
-                        _progress(msg.encode())
-                        ref_status[refname] = msg
                 else:
-                    if not target.refs.remove_if_equals(refname, old_sha1):
-                        _progress(f"unable to remove {refname!r}".encode())
-                        ref_status[refname] = "unable to remove"
+                    try:
+                        updated = target.refs.remove_if_equals(refname, old_sha1)
+                    except ref_errors:
+                        updated = False
+                    if not updated:
+                        msg = "unable to remove"
+                if msg is None:
+                    applied.append((refname, old_sha1, new_sha1))
+                    continue
+                _progress(f"{msg} ({refname!r})".encode())
+                ref_status[refname] = msg
+                if atomic:
+                    # lost to a concurrent writer after validation: undo
+                    # what was applied and fail the whole push
+                    for done_ref, done_old, done_new in reversed(applied):
+                        try:
+                            if done_old == ZERO_SHA:
+                                target.refs.remove_if_equals(done_ref, done_new)
+                            elif done_new == ZERO_SHA:
+                                target.refs.add_if_new(done_ref, done_old)
+                            else:
+                                target.refs.set_if_equals(done_ref, done_new, done_old)
+                        except ref_errors:
+                            pass
+                    for other in new_refs:
+                        if other not in ref_status:
+                            ref_status[other] = "atomic push failed"
+                    break
 
         return SendPackResult(_to_optional_dict(new_refs), ref_status=ref_status)
 
